@@ -63,8 +63,6 @@ b("b15_send_unlocks_before_building_signal_result", "send(): the closed test is 
     "    pub fn send(&self, data: T) -> Result<(), SendError> {\n        let mut internal = acquire_internal(&self.internal);\n        if internal.recv_count == 0 {\n            let err = if internal.send_count == 0 { SendError::Closed } else { SendError::ReceiveClosed };\n            drop(internal);\n            drop(data);\n            return Err(err);\n        }", 1)])
 b("b16_wake_clone_thread_first", "Signal::wake clones the thread handle into a local before the CAS fails... no: only renames a local and adds a spin hint after unpark",
   [("src/signal.rs", "                    thread.unpark();", "                    thread.unpark();\n                    std::hint::spin_loop();", 1)])
-b("b17_is_terminated_acquire", "is_terminated loads with Acquire",
-  [("src/signal.rs", "        self.state.load(Ordering::Relaxed) == TERMINATED", "        self.state.load(Ordering::Acquire) == TERMINATED", 1)])
 b("b18_len_observers_restructured", "is_full / is_empty written through len()",
   [("src/lib.rs", "            let internal = acquire_internal(&self.internal);\n            internal.capacity == internal.queue.len()", "            let internal = acquire_internal(&self.internal);\n            let (c, l) = (internal.capacity, internal.queue.len());\n            drop(internal);\n            c == l", 1)])
 
